@@ -13,7 +13,7 @@ PROPERTY = "C03"
 FUNCTIONS = [
     "cnvlib.segmentation.do_segmentation/_do_segmentation/_ds/transfer_fields/drop_outliers",
     "cnvlib.segmentation.none.segment_none, cnvlib.segmetrics.segment_mean",
-    "cnvlib.segmentation.haar.segment_haar/one_chrom (haarSeg's breakpoints are an arbitrary solver-chosen set)",
+    "cnvlib.segmentation.haar.segment_haar/one_chrom (haarSeg's breakpoints are an arbitrary solver-chosen set); in one configuration the real haarSeg/HaarConv/FindLocalPeaks/UnifyLevels/SegmentByPeaks run on the symbolic signal with concrete weights and an arbitrary FDR threshold",
     "cnvlib.segmentation.hmm.segment_hmm/as_observation_matrix + cnvlib.segfilters.squash_by_groups(by_arm=True)/squash_region (the model's state sequence is arbitrary, solver-chosen)",
     "cnvlib.cnary.CopyNumArray.drop_low_coverage, skgenome.gary.GenomicArray.by_arm/by_chromosome/concat/sort, skgenome.intersect.iter_slices",
 ]
@@ -62,8 +62,12 @@ def sym_bins(ctx, chroms):
     return cols
 
 
-def h_segment(ctx, chroms, method, skip_low, min_weight, outliers=False, case=None):
+def h_segment(ctx, chroms, method, skip_low, min_weight, outliers=False, case=None, real_haar=False, weights=None):
     cols = sym_bins(ctx, chroms)
+    if weights is not None:
+        # the weighted Haar wavelet is a quotient of weighted sums: with symbolic weights its
+        # comparisons go `unknown`, so the real-HaarSeg variant runs with concrete weights
+        cols["weight"] = list(weights)
     apply_case(ctx, case)
     n = len(chroms)
     cna = make_cna(cols, {"sample_id": "S"})
@@ -96,7 +100,16 @@ def h_segment(ctx, chroms, method, skip_low, min_weight, outliers=False, case=No
             nb_counter[0] += 1
             return [ctx.choice(f"st{nb_counter[0]}_{j}", [0, 1, 2]) for j in range(len(obs))]
 
-    patch(haar, "haarSeg", fake_haarSeg)
+    def fake_FDRThres(x, q, stdev):
+        # scipy's normal cdf is out of reach: the threshold is an arbitrary non-negative number
+        nb_counter[0] += 1
+        return ctx.real(f"T{nb_counter[0]}", 0, 20)
+
+    if real_haar:
+        # the real HaarConv / FindLocalPeaks / UnifyLevels / SegmentByPeaks run on the symbolic signal
+        patch(haar, "FDRThres", fake_FDRThres)
+    else:
+        patch(haar, "haarSeg", fake_haarSeg)
     patch(hmm, "hmm_get_model", lambda *a, **k: FakeModel())
     patch(CNA, "smooth_log2", lambda self, *a, **k: self["log2"].values)
     out_mask = [False] * n
@@ -246,6 +259,8 @@ def _cfgs():
                 else:
                     out.append(c)
     out.append({"chroms": ["chr1"] * 3, "method": "none", "skip_low": False, "min_weight": 0, "outliers": True})
+    out.append({"chroms": ["chr1"] * 3, "method": "haar", "skip_low": False, "min_weight": 0, "real_haar": True, "weights": [0.5, 1.0, 0.25]})
+    out.append({"chroms": ["chr1"] * 4, "method": "haar", "skip_low": True, "min_weight": 0, "real_haar": True, "weights": [0.5, 1.0, 0.25, 0.75], "tier": "thorough"})
     out.append({"chroms": ["chr1", "chr1", "chrX", "chrX"], "method": "haar", "skip_low": True, "min_weight": 0, "outliers": True, "tier": "thorough"})
     return out
 
